@@ -210,7 +210,7 @@ pub fn unpack_control_intent_v1(
     if op_id != CONTROL_INTENT_V1_OP_ID {
         return Err(EnvelopeError::Malformed);
     }
-    decode_cbor(vars).map_err(|_| EnvelopeError::Malformed)
+    decode_cbor_canonical(vars).map_err(|_| EnvelopeError::Malformed)
 }
 
 /// Packs a witnessed suffix import proposal into an Echo-owned EINT envelope.
@@ -249,7 +249,7 @@ pub fn unpack_import_suffix_intent_v1(
     if op_id != IMPORT_SUFFIX_INTENT_V1_OP_ID {
         return Err(EnvelopeError::Malformed);
     }
-    decode_cbor(vars).map_err(|_| EnvelopeError::Malformed)
+    decode_cbor_canonical(vars).map_err(|_| EnvelopeError::Malformed)
 }
 
 // -----------------------------------------------------------------------------
@@ -268,6 +268,34 @@ pub fn decode_cbor<T: for<'de> Deserialize<'de>>(bytes: &[u8]) -> Result<T, Cano
     let val = decode_value(bytes)?;
     let sv = cv_to_sv(val)?;
     T::deserialize(sv).map_err(|e| CanonError::Decode(e.to_string()))
+}
+
+/// Decode deterministic CBOR bytes into a serde value **and** require that the
+/// typed value re-encodes to exactly `bytes`.
+///
+/// [`decode_cbor`] only guarantees that the CBOR *value* layer is canonical.
+/// Serde's derived `Deserialize` is more liberal than the derived `Serialize`:
+/// it ignores unknown map keys, defaults absent `Option` fields, accepts byte
+/// strings for field/variant names, `{"variant": null}` for unit variants and
+/// positional arrays for structs. Every one of those is a second byte string
+/// for the same typed value, which breaks content addressing of envelopes
+/// (ingress ids are hashes of the envelope bytes). This gate closes all of them
+/// at once, the same way `decode_canonical_cbor_v1` and the retention codecs do.
+///
+/// # Errors
+/// Returns [`CanonError`] if decoding fails or the bytes are not the canonical
+/// encoding of the decoded value.
+pub fn decode_cbor_canonical<T>(bytes: &[u8]) -> Result<T, CanonError>
+where
+    T: Serialize + for<'de> Deserialize<'de>,
+{
+    let value: T = decode_cbor(bytes)?;
+    if encode_cbor(&value)? != bytes {
+        return Err(CanonError::Decode(
+            "typed value does not re-encode to the supplied bytes".into(),
+        ));
+    }
+    Ok(value)
 }
 
 fn sv_to_cv(val: serde_value::Value) -> Result<ciborium::value::Value, CanonError> {
